@@ -57,7 +57,9 @@ func main() {
 		out := fs.String("out", "/verif/evidence/global_sensitivity.json", "result file")
 		per := fs.Int("per-file", 400, "maximum number of edits per file")
 		par := fs.Int("parallel", 8, "analyses in parallel")
+		only := fs.String("only", "", "restrict to files whose repo-relative path contains this string")
 		fs.Parse(os.Args[2:])
+		sweepOnly = *only
 		os.Exit(runSweepAll(*repo, *out, *per, *par))
 	case "list":
 		for _, id := range rules.IDs() {
@@ -191,7 +193,7 @@ func runCheck(prop, tier, repo, tags string) (code int) {
 		}
 		sw := runSweep(prop, repo, funcs, p, per)
 		extra["sensitivity"] = sw
-		fmt.Printf("sensitivity sweep: %d mutants, %d type-check, %d reported by this check, %d not reported (%.0fs)\n", sw.Mutants, sw.Compiled, sw.Killed, len(sw.Unkilled), sw.Seconds)
+		fmt.Printf("sensitivity sweep: %d mutants, %d type-check, %d reported by this check, %d only by other checks, %d by none (%.0fs)\n", sw.Mutants, sw.Compiled, sw.Killed, sw.KilledElsewhere, len(sw.Unkilled), sw.Seconds)
 		// (c) cross-reference runs of generic tools (context only)
 		extra["cross_reference"] = crossRef(repo, c.Pkgs)
 	}
